@@ -383,10 +383,13 @@ func init() {
 		Title: "The multiline reader splits input losslessly at complete-statement boundaries",
 		Explanation: "Decided: R1 the only non-error exit of the read loop is nested under paren <= 0 && !ignorenl && m == mNormal (so a chunk never ends inside a string, raw string, rune, comment or open bracket as tracked by the mode machine) and the only return inside a line is the invalid-character error; R2 every line read is appended whole to buf before any exit and the chunk returned is exactly buf; R3 the input bytes are modified only to turn '#!' into '//'; R4 a line comment ends with its line; R7 the operator look-ahead states (after + - /) hand the look-ahead character back to the normal state, so a bracket or quote right after an operator is counted; " +
 			"R5 all 14 modes have an arm and a name; R6 the transition table of the literal/comment modes (opening quote, escape, terminator), the bracket counters and the set of continuation characters agree with Go's lexical structure, and a literal/comment mode returns to mNormal only on its terminator. " +
+			"R6 also: a run of stars keeps the after-a-star state, so that a comment may end with **/ (found F46); R9 inside a string or rune literal only a newline aborts the chunk, as in the Go scanner (found F47: a literal TAB was rejected). " +
 			"Not decided: lastIsKeywordIgnoresNl, interaction of +/- modes with ++/--, that tracking at byte level matches the Go scanner on every input.",
 		Assumptions: []string{"Go lexical grammar for string, rune, raw string and comment delimiters"},
 		Rules:       []func(*Ctx){ruleMultilineReader, func(c *Ctx) { c.Floor("R6-transitions", 12); c.Floor("R5-modes", 12); c.Floor("R1-exit-condition", 2) }},
 		Mutants: []Mutant{
+			{Name: "comment-star-run-reopens-comment", File: "base/read.go", Old: "\t\t\t\tcase '*':\n\t\t\t\t\t// still after a star: the comment may end with \"**/\"\n", New: ""},
+			{Name: "tab-inside-string-aborts-chunk", File: "base/read.go", Old: "\t\t\t\t\tif ch == '\\n' {\n\t\t\t\t\t\treturn invalidChar(i, ch, \"string\")", New: "\t\t\t\t\tif ch < ' ' {\n\t\t\t\t\t\treturn invalidChar(i, ch, \"string\")"},
 			{Name: "char-after-division-skipped", File: "base/read.go", Old: "\t\t\t\t\t\tgoto again\n", New: "\t\t\t\t\t\tif ch == 0 {\n\t\t\t\t\t\t\tgoto again\n\t\t\t\t\t\t}\n", Canary: true},
 			{Name: "exit-ignores-mode", File: "base/read.go", Old: "if paren <= 0 && !ignorenl && m == mNormal && (firstToken >= 0 || !optAllComments) {", New: "if paren <= 0 && !ignorenl && (firstToken >= 0 || !optAllComments) {", Canary: true},
 			{Name: "rawstring-closed-by-doublequote", File: "base/read.go", Old: "\t\t\t\tcase '`':\n\t\t\t\t\tm = mNormal\n", New: "\t\t\t\tcase '`', '\"':\n\t\t\t\t\tm = mNormal\n", Canary: true},
